@@ -208,7 +208,7 @@ Inductive case :=
        (surv_in surv_out : N).     (* marked processes found by that scan: in the harness's session / in another session *)
 
 Definition check_lat : N := 500.      (* tolerated lateness of each timer under load *)
-Definition life_margin : N := 600.    (* a process may outlive sp_life by its own start-up delay *)
+Definition life_margin : N := 1000.    (* a process may outlive sp_life by its own start-up delay *)
 
 Fixpoint setup_from (i : nat) (l : list pspec) : list event :=
   match l with
